@@ -161,7 +161,7 @@ still inside ReadFrame waiting for a CONTINUATION). -/
 def feed (st : FramerSt) (typ flags sid : Nat) (p : Bytes) : FramerSt × Option Frame :=
   let len := p.length
   -- ReadFrameHeader
-  if len > http2MaxFrameLen then (st, some .connErr) else
+  if len > ccHttp2MaxFrameLen then (st, some .connErr) else
   -- checkFrameOrder
   if st.lastHeaderStream ≠ 0 && (typ ≠ 9 || sid ≠ st.lastHeaderStream) then (st, some .connErr)
   else if st.lastHeaderStream = 0 && typ = 9 then (st, some .connErr)
